@@ -1,5 +1,6 @@
 import Lean.Data.Json
 import Ktm.Driver
+import Ktm.DriverHB
 /-! Dispatcher of the line protocol: every line carries a `suite` field; `op = init` (re)starts the
     suite's state. -/
 open Lean
@@ -8,6 +9,7 @@ namespace DriverAll
 inductive DSt
   | none
   | oracle (s : Driver.St)
+  | hb (s : DriverHB.St)
 
 def handleLine (st : DSt) (line : String) : DSt × String :=
   match Json.parse line with
@@ -18,6 +20,10 @@ def handleLine (st : DSt) (line : String) : DSt × String :=
       let cur : Option Driver.St := match st with | .oracle s => some s | _ => Option.none
       let (s', out) := Driver.handle cur j
       (match s' with | some s => .oracle s | Option.none => .none, out)
+    | "hyperband" =>
+      let cur : Option DriverHB.St := match st with | .hb s => some s | _ => Option.none
+      let (s', out) := DriverHB.handle cur j
+      (match s' with | some s => .hb s | Option.none => .none, out)
     | s => (st, s!"bad-suite {s}")
 
 end DriverAll
